@@ -195,12 +195,12 @@ func (o Op) String() string {
 		return fmt.Sprintf("q%d(%d)@%s", o.Text, o.Arg, via)
 	case "e":
 		return "e@" + via
-	case "tx":
+	case "tx", "conn":
 		parts := make([]string, len(o.Sub))
 		for i, s := range o.Sub {
 			parts[i] = s.String()
 		}
-		return "tx{" + strings.Join(parts, " ") + "}@" + via
+		return o.Kind + "{" + strings.Join(parts, " ") + "}@" + via
 	}
 	return o.Kind + "@" + via
 }
@@ -343,7 +343,7 @@ func genProgram(t *rapid.T, g int, mode string, allowClose bool) []Op {
 	n := rapid.IntRange(1, 4).Draw(t, fmt.Sprintf("g%d.len", g))
 	var ops []Op
 	for i := 0; i < n; i++ {
-		kinds := []string{"q", "q", "q", "q", "e", "tx", "tx", "reset"}
+		kinds := []string{"q", "q", "q", "q", "e", "tx", "tx", "conn", "reset"}
 		if allowClose {
 			if mode == "both" && harness.OpenClass("C14", "close-stale-session-handle") {
 				// listed finding: Close through the Config-level cache while session-level handles exist
@@ -364,7 +364,7 @@ func genProgram(t *rapid.T, g int, mode string, allowClose bool) []Op {
 		case "q":
 			o.Text = rapid.IntRange(0, len(texts)-1).Draw(t, "text")
 			o.Arg = rapid.IntRange(1, nItems).Draw(t, "arg")
-		case "tx":
+		case "tx", "conn":
 			m := rapid.IntRange(1, 2).Draw(t, "txlen")
 			for j := 0; j < m; j++ {
 				o.Sub = append(o.Sub, Op{Kind: "q", Via: via,
@@ -440,6 +440,22 @@ func runCase(rt *rapid.T) {
 						atomic.StoreInt32(&ctl.inTx[gid], 1)
 						defer atomic.StoreInt32(&ctl.inTx[gid], 0)
 						for _, s := range o.Sub {
+							r := opResult{gid: gid, op: s, inTx: true, start: ctl.tick()}
+							r.err = tx.Raw(texts[s.Text], s.Arg).Scan(&r.val).Error
+							r.end = ctl.tick()
+							record(r)
+						}
+						return nil
+					})
+					record(opResult{gid: gid, op: o, start: start, end: ctl.tick(), err: err})
+				case "conn":
+					// queries on a dedicated connection (DB.Connection): same rows as anywhere else, and
+					// nothing they leave in the cache may break later users of the same text
+					start := ctl.tick()
+					err := e.handle(o.Via, ctx).Connection(func(tx *gorm.DB) error {
+						for _, s := range o.Sub {
+							// inTx also marks members of a dedicated-connection block: like a transaction it
+							// is bound to one connection, and a dead connection fails the rest of the block
 							r := opResult{gid: gid, op: s, inTx: true, start: ctl.tick()}
 							r.err = tx.Raw(texts[s.Text], s.Arg).Scan(&r.val).Error
 							r.end = ctl.tick()
@@ -685,14 +701,14 @@ func runCase(rt *rapid.T) {
 	// the window of the transaction block enclosing a tx member
 	txWindow := func(r opResult) (int64, int64) {
 		for _, t := range results {
-			if t.op.Kind == "tx" && t.gid == r.gid && t.start <= r.start && r.end <= t.end {
+			if (t.op.Kind == "tx" || t.op.Kind == "conn") && t.gid == r.gid && t.start <= r.start && r.end <= t.end {
 				return t.start, t.end
 			}
 		}
 		return r.start, r.end
 	}
 	for _, r := range results {
-		if r.op.Kind == "tx" {
+		if r.op.Kind == "tx" || r.op.Kind == "conn" {
 			if r.err != nil && !nearCacheEvent(r) && !faultFor(r.gid, r.start, r.end, "conn-badconn", "prepare-badconn", "prepare-error") {
 				fail("transaction block of g%d returned %v with no Reset/Close/fault in its window", r.gid, r.err)
 			}
@@ -709,11 +725,11 @@ func runCase(rt *rapid.T) {
 			ws, we = txWindow(r)
 		}
 		switch {
-		case errors.Is(r.err, errPrepare):
+		case isErr(r.err, errPrepare):
 			if !failedPrepareDuring(r, errPrepare) {
 				fail("g%d %s returned the injected prepare error although no preparation failed during the operation (a failed preparation was cached)", r.gid, r.op)
 			}
-		case errors.Is(r.err, driver.ErrBadConn):
+		case isErr(r.err, driver.ErrBadConn):
 			if !failedPrepareDuring(r, driver.ErrBadConn) && !faultFor(r.gid, ws, we, "conn-badconn") {
 				fail("g%d %s returned ErrBadConn but no connection fault was injected into it", r.gid, r.op)
 			}
@@ -723,8 +739,12 @@ func runCase(rt *rapid.T) {
 			// cache evict and close the statement all users of that text share (DESIGN.md C14 notes)
 			evicted := false
 			for _, f := range ctl.faults {
-				if f.kind == "conn-badconn" && r.op.Kind == "q" && f.text == texts[r.op.Text] && f.t >= ws && f.t <= we {
-					evicted = true
+				if f.kind == "conn-badconn" && r.op.Kind == "q" && f.text == texts[r.op.Text] {
+					// the eviction happens somewhere inside the operation that hit the dead connection
+					fs, fe := opWindow(f.gid, f.t)
+					if overlaps(ws, we, fs, fe) || (f.t >= ws && f.t <= we) {
+						evicted = true
+					}
 				}
 			}
 			if !nearCacheEvent(r) && !evicted {
@@ -845,7 +865,7 @@ func runCase(rt *rapid.T) {
 	}
 
 	// ---- evidence -------------------------------------------------------------------------------------
-	hasReset, hasClose, hasTx := false, false, false
+	hasReset, hasClose, hasTx, hasConn := false, false, false, false
 	for _, p := range progs {
 		for _, o := range p {
 			switch o.Kind {
@@ -855,6 +875,8 @@ func runCase(rt *rapid.T) {
 				hasClose = true
 			case "tx":
 				hasTx = true
+			case "conn":
+				hasConn = true
 			}
 		}
 	}
@@ -867,6 +889,9 @@ func runCase(rt *rapid.T) {
 	}
 	if hasTx {
 		cl = append(cl, "has:tx")
+	}
+	if hasConn {
+		cl = append(cl, "has:connection")
 	}
 	if faultsDrawn > 0 {
 		cl = append(cl, "has:fault")
@@ -918,6 +943,12 @@ func blockedOnCacheMutex() string {
 		}
 	}
 	return found
+}
+
+// isErr: gorm joins a second error with "%v; %w", which keeps only the later one in the chain,
+// so an injected error is also recognised by its text.
+func isErr(err, target error) bool {
+	return errors.Is(err, target) || strings.Contains(err.Error(), target.Error())
 }
 
 func firstLine(s string) string {
